@@ -144,6 +144,11 @@ def observe(P, res, key, collect_events=True):
                         'z': [float(reg.z[0]), float(reg.z[1])],
                         'rho': float(reg.coolant.density)}
                 if reg.is_rodded:
+                    sg_in = P['types'].get(a.name, {}).get('SpacerGrid') or {}
+                    info['grid_z_input'] = [
+                        float(z) for z in sg_in.get('axial_positions', [])
+                        if float(reg.z[0]) < float(z) <= float(reg.z[1])]
+                    info['K_input'] = sg_in.get('loss_coeff')
                     info.update({
                         'ff': float(reg.coolant_int_params['ff']),
                         'vel': float(reg.coolant_int_params['vel']),
@@ -208,15 +213,28 @@ def check_static(res, data, P, key, const_props, gravity):
                 res.check('DP3g_gravity_off', rg['dp']['gravity'] == 0.0,
                           'gravity head accumulated although switched off',
                           key)
-            if rg['rodded'] and rg['grid_z']:
-                exp_g = len(rg['grid_z']) * rg['K'] * rg['rho'] \
+            if rg['rodded'] and (rg['grid_z'] or rg.get('grid_z_input')):
+                # the grids are those of the INPUT (the region's own list
+                # only says what DASSH kept of them)
+                zin = rg.get('grid_z_input', rg['grid_z'])
+                ok_list = sorted(np.round(zin, 9)) == sorted(
+                    np.round(rg['grid_z'], 9))
+                res.check('DP4_region_holds_the_input_grids', bool(ok_list)
+                          and rg['K'] is not None,
+                          'bundle region holds grids %r (loss coefficient '
+                          '%r), the input gives %r' % (rg['grid_z'], rg['K'],
+                                                       zin),
+                          dict(key, mech='grid_list'))
+                K = rg['K_input'] if rg.get('K_input') is not None \
+                    else (rg['K'] or 0.0)
+                exp_g = len(zin) * K * rg['rho'] \
                     * rg['vel'] ** 2 / 2.0
                 on_plane = False
                 res.close('DP4_grid_closed_form',
                           rg['dp']['spacer_grid'] - exp_g,
                           abs(exp_g) + 1e-12, 1e-9,
                           'spacer-grid loss != one K rho v^2/2 per grid '
-                          '(%d grids)' % len(rg['grid_z']),
+                          '(%d grids)' % len(zin),
                           dict(key, mech='grid_count'),
                           {'got': rg['dp']['spacer_grid'], 'exp': exp_g})
 
